@@ -2369,6 +2369,16 @@ class C09(PropCheck):
                 meta['priors'] = list(getattr(self, '_hyphen_creators', [])[:meta.get('n_creators', 0)])
                 what += f' (after {len(meta["priors"])} earlier calls in the same layout context)'
             return what
+        if d['section'] == 'source-nodes':
+            # the clauses proved as processed_text_no_newline / processed_text_no_double_space, on the real tree
+            ws = meta.get('ws', 'normal')
+            texts = [dec(a) for a in d['impl'].replace('(', ' ').replace(')', ' ').split() if a.startswith('t:')]
+            if ws in ('normal', 'nowrap') and any('\n' in t for t in texts):
+                return (f'white-space:{ws}: a line break of the source survives white-space processing as a preserved '
+                        f'line break in {[t for t in texts if chr(10) in t][:3]!r}')
+            if ws in COLLAPSE and any('  ' in t for t in texts):
+                return f'white-space:{ws}: two consecutive spaces survive white-space processing in {texts[:4]!r}'
+            return None
         if d['section'] in ('inline-doc', 'source-doc'):
             if d['impl'].startswith('err:'):
                 return f'layout raised {d["impl"][4:]}'
